@@ -610,7 +610,39 @@ def rule_recorded_statement_still_valid(ctx):
     ctx.floor("C06.j MERGE execute paths", n, 1)
 
 
+def rule_cells_as_converted(ctx):
+    """C06.k: description is derived from the statement's column types, so the Python type of a fetched cell may depend on its
+    column only: no fetch path passes a cell through a scalar conversion (int / float / str / Decimal …) that a test on the cell's
+    own *value* selected (4.00 of a NUMBER(10,2) column coming back as int while description says scale 2)."""
+    from .c05 import _prov_nodes, _run, _table
+
+    prog = ctx.prog
+    fn = prog.fn("cursor", "FakeSnowflakeCursor.fetchmany")
+    loc = prog.mod("cursor").loc(fn)
+    n = 0
+    CONV = {"int", "float", "str", "bool", "round", "Decimal", "decimal.Decimal", "builtins.int", "builtins.float", "builtins.str", "builtins.bool"}
+    for dict_result in (False, True):
+        for (p, cur) in _run(prog, "fetchmany", [Sym("SIZE", typ="int", truthy=True)], _table, Const(None), dict_result=dict_result):
+            if p.outcome != "return":
+                continue
+            n += 1
+            conv = next((x for x in _prov_nodes(p.value) if isinstance(x, Sym) and x.origin and x.origin[0] == "call" and str(x.origin[1]) in CONV
+                         and any("to_pylist" in tagof(a) for a in x.origin[2])), None)
+            tested = [t for t, _v in p.assumed if "to_pylist" in t]
+            bad = conv is not None and bool(tested)
+            kind = "dict" if dict_result else "tuple"
+            ctx.ob("C06.k", f"fetchmany ({kind} cursor): cells keep the Python type their column's conversion gave them", not bad, loc,
+                   "" if not bad else f"{tagof(conv)[:50]} under {tested[0][:50]}")
+            if bad:
+                ctx.violation("C06.k", "cursor", "FakeSnowflakeCursor.fetchmany", f"{kind} cells converted by a test on their value", loc,
+                              f"a fetched cell is returned as `{tagof(conv)[:70]}` on the paths where `{tested[0][:70]}` holds: the Python type of "
+                              f"a value then depends on the value (4.00 -> int, 4.50 -> Decimal in one NUMBER(10,2) column), which no description "
+                              f"derived from the column type can match")
+    ctx.floor("C06.k fetchmany paths", n, 2)
+
+
 RULES = [
+    ("C06.k", rule_cells_as_converted, ("quick", "thorough")),
     ("C06.j", rule_recorded_statement_still_valid, ("quick", "thorough")),
     ("C06.f", rule_type_table, ("quick", "thorough")),
     ("C06.h", rule_describe_dict_cursor, ("quick", "thorough")),
